@@ -1357,7 +1357,16 @@ def do_lift(code, d, rec):
             rec['transformations'].append({'rule': 'E9', 'what': 'the lifted statements use `?` / `return Err`: `%s` appended as the value of the lifted function' % tail})
             return sig + ' {\n' + code[pos:pos2] + '\n' + tail + '\n}'
         return sig + ' {\n' + code[pos:pos2] + '\n}'
-    pos = nth_occurrence(m, anchor, n, 'lift anchor')
+    if ' ' in anchor.strip() and anchor not in m:
+        # an anchor that spans lines: its blank-separated parts may be separated by any white space in the source
+        rx = r'\s*'.join(re.escape(p_) for p_ in anchor.split())
+        occ = [mm_ for mm_ in re.finditer(rx, m)]
+        if len(occ) < n:
+            raise WeaveError('lost anchor: lift anchor (occurrence %d of %r)' % (n, anchor))
+        pos = occ[n - 1].start()
+        anchor = m[pos:occ[n - 1].end()]
+    else:
+        pos = nth_occurrence(m, anchor, n, 'lift anchor')
     b = m.find('{', pos + len(anchor) - 1) if not anchor.rstrip().endswith('{') else pos + len(anchor.rstrip()) - 1
     e = match_close(m, b)
     body = code[b:e + 1]
